@@ -1579,6 +1579,18 @@ class Interp:
             if isinstance(key, slice):
                 base[slice(self._conc_or_none(key.start), self._conc_or_none(key.stop), self._conc_or_none(key.step))] = self.iterate_concrete(v)
                 return
+            if isinstance(key, STensor) and key.rank == 0:
+                key = key.at([])
+            if is_sym(key):
+                sk = V.simplify_scalar(key)
+                if not isinstance(sk, int):
+                    n = len(base)
+                    self.path.require(V.b_and(V.i_le(-n, key), V.i_lt(key, n)), "IndexError", "list assignment index out of range")
+                    for j in range(n):
+                        if self.truth(V.b_or(V.i_eq(key, j), V.i_eq(key, j - n))):
+                            base[j] = v
+                            return
+                    raise PathAbort("index out of range")
             k = self.conc_key(key)
             try:
                 base[k] = v
